@@ -64,6 +64,13 @@ func NewRequestContext(ctx context.Context, req *envoy_auth.CheckRequest) *Reque
 		}
 	}
 
+	// envoy passes the path as it appears in the request line, i.e. not decoded. As for requests received
+	// via HTTP, the decoded form belongs into Path and the received one into RawPath. Otherwise, templates
+	// and expressions see escaped paths, URL.String() escapes them once more, and the allow_encoded_slashes
+	// setting of a rule is not honored
+	rawPath := req.GetAttributes().GetRequest().GetHttp().GetPath()
+	path, _ := url.PathUnescape(rawPath)
+
 	return &RequestContext{
 		ctx:        ctx,
 		ips:        clientIPs,
@@ -72,7 +79,8 @@ func NewRequestContext(ctx context.Context, req *envoy_auth.CheckRequest) *Reque
 		reqURL: &url.URL{
 			Scheme:   req.GetAttributes().GetRequest().GetHttp().GetScheme(),
 			Host:     req.GetAttributes().GetRequest().GetHttp().GetHost(),
-			Path:     req.GetAttributes().GetRequest().GetHttp().GetPath(),
+			Path:     path,
+			RawPath:  rawPath,
 			RawQuery: req.GetAttributes().GetRequest().GetHttp().GetQuery(),
 			Fragment: req.GetAttributes().GetRequest().GetHttp().GetFragment(),
 		},
